@@ -1551,21 +1551,42 @@ Theorem cut_of_text_wf sg n : WfU8 (cut_floor n (seg_bytes sg)) /\ nlen (cut_flo
 Proof. apply cut_floor_wf, seg_bytes_wf. Qed.
 
 (* ---------- the single exit under failing side writes (run07d) ---------- *)
-(* with nothing in the gate the failing side writes of a run change nothing it logs … *)
+(* with nothing in the gate the failing side writes of a run change what it logs only through the outcomes they cause
+   (inp_under: compile failure, failed auto checkpoint) - the run IS run_session on that input … *)
 Lemma run_session_x_ungated gate f g sid link aok inp : gate_unconditional gate = true ->
-  run_session_x gate f g sid link aok inp = run_session g sid link aok inp.
+  run_session_x gate f g sid link aok inp = run_session g sid link aok (inp_under f inp).
 Proof. destruct gate; [reflexivity | discriminate]. Qed.
 
 Lemma act_events_x_ungated gate swf aok a : gate_unconditional gate = true ->
-  act_events_x gate swf aok a = act_events aok a.
+  act_events_x gate swf aok a = act_events aok (act_under swf a).
 Proof.
-  intros G. destruct a as [g mid sid inp | g sid inp | j o]; cbn [act_events_x act_events]; [| apply run_session_x_ungated, G | reflexivity].
+  intros G. destruct a as [g mid sid inp | g sid inp | j o]; cbn [act_events_x act_events act_under]; [| apply run_session_x_ungated, G | reflexivity].
   unfold post_message_x, post_message. rewrite (run_session_x_ungated gate (swf sid) g sid (Some mid) aok inp G). reflexivity.
 Qed.
 
 Lemma map_act_events_x_ungated gate swf aok acts : gate_unconditional gate = true ->
-  map (act_events_x gate swf aok) acts = map (act_events aok) acts.
-Proof. intros G. apply map_ext. intros a. apply act_events_x_ungated, G. Qed.
+  map (act_events_x gate swf aok) acts = map (act_events aok) (map (act_under swf) acts).
+Proof. intros G. rewrite map_map. apply map_ext. intros a. apply act_events_x_ungated, G. Qed.
+
+(* act_under keeps every id: freshness is preserved *)
+Lemma act_under_sids swf a : act_sids (act_under swf a) = act_sids a.
+Proof. destruct a; reflexivity. Qed.
+Lemma act_under_mids swf a : act_mids (act_under swf a) = act_mids a.
+Proof. destruct a; reflexivity. Qed.
+Lemma act_under_jobs swf a : act_jobs (act_under swf a) = act_jobs a.
+Proof. destruct a; reflexivity. Qed.
+Lemma flat_map_map_ext {A B} (f : A -> list B) (h : A -> A) l : (forall a, f (h a) = f a) -> flat_map f (map h l) = flat_map f l.
+Proof. intros H. induction l as [|a l IH]; cbn [map flat_map]; [reflexivity | now rewrite H, IH]. Qed.
+Lemma WfActs_under swf acts : WfActs acts -> WfActs (map (act_under swf) acts).
+Proof.
+  intros (A & B & C). unfold WfActs.
+  rewrite (flat_map_map_ext act_sids _ acts (act_under_sids swf)), (flat_map_map_ext act_mids _ acts (act_under_mids swf)),
+          (flat_map_map_ext act_jobs _ acts (act_under_jobs swf)).
+  repeat split; assumption.
+Qed.
+Lemma In_post_under swf acts g mid sid inp : In (APost g mid sid inp) acts ->
+  In (APost g mid sid (inp_under (swf sid) inp)) (map (act_under swf) acts).
+Proof. intros H. apply (in_map (act_under swf)) in H. exact H. Qed.
 
 (* … so every run announced on the thread is closed exactly once, whatever side writes fail in whichever runs … *)
 Theorem one_end_per_spawn_x gate swf aok acts l g mid sid inp :
@@ -1575,7 +1596,8 @@ Theorem one_end_per_spawn_x gate swf aok acts l g mid sid inp :
   (forall r, aok (CRunEnded sid mid r) = true) ->
   count_ck (is_end_of sid) l = 1%nat.
 Proof.
-  intros G W I. rewrite (map_act_events_x_ungated gate swf aok acts G) in I. exact (one_end_per_spawn aok acts l g mid sid inp W I).
+  intros G W I Ha. rewrite (map_act_events_x_ungated gate swf aok acts G) in I.
+  exact (one_end_per_spawn aok _ l g mid sid _ (WfActs_under swf acts W) I (In_post_under swf acts g mid sid inp Ha)).
 Qed.
 
 (* … right after its own terminal session frame, with that frame's reason *)
@@ -1589,22 +1611,23 @@ Theorem thread_order_x gate swf aok acts l g mid sid inp :
     /\ mid_kinds (map snd (sess_stream sid pre)) = true
     /\ ThreadShape sid mid (conts (filter (of_run sid) l)) r.
 Proof.
-  intros G W I. rewrite (map_act_events_x_ungated gate swf aok acts G) in I. exact (thread_order aok acts l g mid sid inp W I).
+  intros G W I Ha. rewrite (map_act_events_x_ungated gate swf aok acts G) in I.
+  exact (thread_order aok _ l g mid sid _ (WfActs_under swf acts W) I (In_post_under swf acts g mid sid inp Ha)).
 Qed.
 
 (* the session stream keeps its shape under EVERY gate and failure pattern (the gate only concerns the thread frame) *)
 Lemma sess_stream_run_session_x gate f g sid link aok inp :
-  sess_stream sid (run_session_x gate f g sid link aok inp) = sess_stream sid (run_session g sid link aok inp).
+  sess_stream sid (run_session_x gate f g sid link aok inp) = sess_stream sid (run_session g sid link aok (inp_under f inp)).
 Proof.
-  unfold run_session_x, run_session. rewrite !sess_stream_app. f_equal.
+  unfold run_session_x, run_session. cbn zeta. rewrite !sess_stream_app. f_equal.
   destruct link as [mid|]; [|reflexivity]. destruct (gate_open gate f); [reflexivity|].
   rewrite sess_stream_capp. reflexivity.
 Qed.
 
 (* a run whose gated side write fails: everything of run_session except the closing thread frame *)
 Lemma run_session_x_closed gate f g sid mid aok inp : gate_open gate f = false ->
-  run_session_x gate f g sid (Some mid) aok inp = ES sid 0 SStarted :: run_body g sid (Some mid) aok inp.
-Proof. intros G. unfold run_session_x. rewrite G, app_nil_r. reflexivity. Qed.
+  run_session_x gate f g sid (Some mid) aok inp = ES sid 0 SStarted :: run_body g sid (Some mid) aok (inp_under f inp).
+Proof. intros G. unfold run_session_x. cbn zeta. rewrite G, app_nil_r. reflexivity. Qed.
 
 Lemma run_body_pre_ck g sid link aok inp : forallb (pre_ck sid) (conts (run_body g sid link aok inp)) = true.
 Proof.
@@ -1624,7 +1647,7 @@ Lemma run_session_x_no_end gate f g sid mid aok inp : gate_open gate f = false -
 Proof.
   intros G. rewrite (run_session_x_closed gate f g sid mid aok inp G).
   unfold count_ck. rewrite count_conts, conts_cons_s.
-  rewrite (filter_none (is_end_of sid) (pre_ck sid) _ (fun k Hk => ltac:(destruct k; try discriminate; reflexivity)) (run_body_pre_ck g sid (Some mid) aok inp)).
+  rewrite (filter_none (is_end_of sid) (pre_ck sid) _ (fun k Hk => ltac:(destruct k; try discriminate; reflexivity)) (run_body_pre_ck g sid (Some mid) aok (inp_under f inp))).
   reflexivity.
 Qed.
 
@@ -1673,6 +1696,21 @@ Lemma ungated_facts :
   /\ conts ungated_log = [CMessage 7; CRunSpawned 1 7; CSideEffects 1; CRunEnded 1 7 R_COMPLETED; CMessage 8; CRunSpawned 2 8; CRunEnded 2 8 R_COMPLETED].
 Proof. split; [apply interleave_concat | vm_compute; reflexivity]. Qed.
 
+(* failing artifact / checkpoint writes BEFORE the exit: a linked provider run whose context bundle cannot be written
+   ends context_compile_failed, a `write` envelope whose auto checkpoint cannot be written logs checkpoint_failed and runs
+   the tool - and both are closed on the thread, with those reasons *)
+Definition swf_workspace_damaged : N -> side_write -> bool :=
+  fun _ w => match w with SwArtifacts | SwCheckpoints => true | _ => false end.
+Definition ws_damaged_acts : list act :=
+  [APost g_prov 7 1 (IPrompt true [ROk [true] true []]);
+   APost g_stub 8 2 (ITool true {| t_auto := 1; t_res := TDone 1 0 |})].
+Definition ws_damaged_log : list ev := concat (map (act_events_x EXIT_GATE swf_workspace_damaged all_ok) ws_damaged_acts).
+Lemma ws_damaged_facts :
+  map snd (sess_stream 1 ws_damaged_log) = [SStarted; SEnded R_COMPILE_FAILED]
+  /\ map snd (sess_stream 2 ws_damaged_log) = [SStarted; SCkFailed; SToolStarted; SToolStdout; SToolEnded; SOutput; SEnded R_COMPLETED]
+  /\ conts ws_damaged_log = [CMessage 7; CRunSpawned 1 7; CRunEnded 1 7 R_COMPILE_FAILED; CMessage 8; CRunSpawned 2 8; CSideEffects 2; CRunEnded 2 8 R_COMPLETED].
+Proof. vm_compute. repeat split; reflexivity. Qed.
+
 Lemma gated_run_never_ended gate : gate_unconditional gate = false ->
   exists w, In w gate /\
     forall (g : cfg) (sid mid : N) (aok : ck -> bool) (inp : input),
@@ -1709,17 +1747,17 @@ Proof.
 Qed.
 
 Lemma run_session_x_closed_as_never_end gate f g sid link aok inp : gate_open gate f = false ->
-  run_session_x gate f g sid link aok inp = run_session g sid link (never_end aok) inp.
+  run_session_x gate f g sid link aok inp = run_session g sid link (never_end aok) (inp_under f inp).
 Proof.
-  intros G. unfold run_session_x, run_session. rewrite G, run_body_never_end.
+  intros G. unfold run_session_x, run_session. cbn zeta. rewrite G, run_body_never_end.
   destruct link as [mid|]; [|reflexivity]. unfold capp. cbn [never_end]. reflexivity.
 Qed.
 
 Lemma act_events_x_closed gate f aok a :
   gate_open gate f = false ->
-  act_events_x gate (fun _ => f) aok a = act_events (never_end aok) a.
+  act_events_x gate (fun _ => f) aok a = act_events (never_end aok) (act_under (fun _ => f) a).
 Proof.
-  intros G. destruct a as [g mid sid inp | g sid inp | j o]; cbn [act_events_x act_events].
+  intros G. destruct a as [g mid sid inp | g sid inp | j o]; cbn [act_events_x act_events act_under].
   - unfold post_message_x, post_message. cbn [never_end].
     rewrite (run_session_x_closed_as_never_end gate f g sid (Some mid) aok inp G). reflexivity.
   - apply run_session_x_closed_as_never_end, G.
@@ -1735,9 +1773,11 @@ Theorem gated_store_never_ends gate : gate_unconditional gate = false ->
 Proof.
   intros G. destruct (gate_closable gate G) as (w & Hw & C). exists w. split; [exact Hw|].
   intros aok acts l g mid sid inp W I Ha O1 O2.
-  assert (E : map (act_events_x gate (fun _ => side_write_eqb w) aok) acts = map (act_events (never_end aok)) acts).
-  { apply map_ext. intros a. apply act_events_x_closed, C. }
-  rewrite E in I. split.
-  - apply (one_spawn_per_message (never_end aok) acts l g mid sid inp W I Ha); assumption.
-  - destruct (count_end_general (never_end aok) acts l g mid sid inp W I Ha O1 O2) as [r ->]. reflexivity.
+  set (swf := fun _ : N => side_write_eqb w) in *.
+  assert (E : map (act_events_x gate swf aok) acts = map (act_events (never_end aok)) (map (act_under swf) acts)).
+  { rewrite map_map. apply map_ext. intros a. apply act_events_x_closed, C. }
+  rewrite E in I. pose proof (WfActs_under swf acts W) as W'. pose proof (In_post_under swf acts g mid sid inp Ha) as Ha'.
+  split.
+  - apply (one_spawn_per_message (never_end aok) _ l g mid sid _ W' I Ha'); assumption.
+  - destruct (count_end_general (never_end aok) _ l g mid sid _ W' I Ha' O1 O2) as [r ->]. reflexivity.
 Qed.
